@@ -582,22 +582,60 @@ Qed.
 (* ---------------------------------------------------------------------------------------------
    the hop relative to the receiver's Shutdown
    --------------------------------------------------------------------------------------------- *)
-Lemma shutdown_drains_l : forall t a n o, hop_at InFlightAtShutdown t a n o = hop t a n o.
-Proof. reflexivity. Qed.
+(* the calls the CURRENT source makes (obligation re-checked against Generated/C15Shutdown.v on every run) *)
+Lemma receiver_stop_calls_l :
+  receiver_stop_call Grpc = GrpcGracefulStop /\ receiver_stop_call HttpPb = HttpShutdown /\
+  receiver_stop_call HttpJson = HttpShutdown.
+Proof. repeat split; reflexivity. Qed.
 
-Lemma after_shutdown_l : forall t a n o,
-  h_called (hop_at AfterShutdown t a n o) = false /\ h_verdict (hop_at AfterShutdown t a n o) = Retryable.
-Proof. intros t a n o. destruct t; split; reflexivity. Qed.
+Section ShutdownLib.
+  (* what the libraries do with running handlers when told to stop *)
+  Variable lib_drains : stop_call -> bool.
+  (* net/http: Server.Shutdown does not interrupt active connections and waits for them *)
+  Hypothesis http_shutdown_drains : lib_drains HttpShutdown = true.
+  (* grpc-go: Server.GracefulStop blocks until all pending RPCs are finished *)
+  Hypothesis grpc_graceful_stop_drains : lib_drains GrpcGracefulStop = true.
 
-(* the sender sees success iff the consumer was handed the data and accepted it, whatever the phase *)
-Lemma success_iff_consumer_accepted_l : forall ph t a n o, a <> AuthFail -> (0 < n)%N -> ok_coded o = false ->
-  (h_verdict (hop_at ph t a n o) = Success <-> (h_called (hop_at ph t a n o) = true /\ o = Accept)).
+  Lemma shutdown_drains_l : forall t a n o, hop_at_lib lib_drains InFlightAtShutdown t a n o = hop t a n o.
+  Proof.
+    intros t a n o. unfold hop_at_lib. destruct receiver_stop_calls_l as (Hg & Hp & Hj).
+    destruct t; [rewrite Hg, grpc_graceful_stop_drains | rewrite Hp, http_shutdown_drains
+                | rewrite Hj, http_shutdown_drains]; reflexivity.
+  Qed.
+
+  Lemma after_shutdown_l : forall t a n o,
+    h_called (hop_at_lib lib_drains AfterShutdown t a n o) = false /\
+    h_verdict (hop_at_lib lib_drains AfterShutdown t a n o) = Retryable.
+  Proof. intros t a n o. destruct t; split; reflexivity. Qed.
+
+  (* the sender sees success iff the consumer was handed the data and accepted it, whatever the phase *)
+  Lemma success_iff_consumer_accepted_l : forall ph t a n o, a <> AuthFail -> (0 < n)%N -> ok_coded o = false ->
+    (h_verdict (hop_at_lib lib_drains ph t a n o) = Success <->
+     (h_called (hop_at_lib lib_drains ph t a n o) = true /\ o = Accept)).
+  Proof.
+    intros ph t a n o Ha Hn Hk.
+    assert (R : h_verdict (hop t a n o) = Success <-> (h_called (hop t a n o) = true /\ o = Accept)).
+    { rewrite (success_iff_accepted_l t a n o Ha Hn Hk). split.
+      - intros ->. rewrite (hop_accept t a n Ha Hn). split; reflexivity.
+      - intros [_ E]. exact E. }
+    destruct ph.
+    - exact R.
+    - rewrite shutdown_drains_l. exact R.
+    - destruct (after_shutdown_l t a n o) as [Hc Hv]. rewrite Hc, Hv. split; [discriminate|intros [E _]; discriminate].
+  Qed.
+End ShutdownLib.
+
+(* the documented library semantics satisfies the two hypotheses *)
+Lemma documented_lib_drains : documented_lib HttpShutdown = true /\ documented_lib GrpcGracefulStop = true.
+Proof. split; reflexivity. Qed.
+
+(* why the hypotheses are needed: with a stop call that does not drain, a request that the consumer accepted
+   while the server was stopping is reported to the sender as a (retryable) failure *)
+Lemma cut_breaks_success_iff_accepted_l : forall lib_drains t a n, a <> AuthFail -> (0 < n)%N ->
+  lib_drains (receiver_stop_call t) = false ->
+  h_called (hop_at_lib lib_drains InFlightAtShutdown t a n Accept) = true /\
+  h_verdict (hop_at_lib lib_drains InFlightAtShutdown t a n Accept) = Retryable.
 Proof.
-  intros ph t a n o Ha Hn Hk.
-  assert (R : h_verdict (hop t a n o) = Success <-> (h_called (hop t a n o) = true /\ o = Accept)).
-  { rewrite (success_iff_accepted_l t a n o Ha Hn Hk). split.
-    - intros ->. rewrite (hop_accept t a n Ha Hn). split; reflexivity.
-    - intros [_ E]. exact E. }
-  destruct ph; try exact R.
-  destruct (after_shutdown_l t a n o) as [Hc Hv]. rewrite Hc, Hv. split; [discriminate|intros [E _]; discriminate].
+  intros lib t a n Ha Hn H. unfold hop_at_lib. rewrite H, (hop_accept t a n Ha Hn).
+  destruct t; split; reflexivity.
 Qed.
